@@ -241,6 +241,20 @@ pub fn platt_newton_method<'a, F: Float, O>(
     labels: ArrayView1<'a, bool>,
     params: &PlattValidParams<F, O>,
 ) -> Result<(F, F), PlattError> {
+    // near the optimum the sufficient-decrease test of the line search compares objective values that
+    // differ by less than the resolution of f32: run the iteration in f64 whatever the model's float type
+    if F::epsilon() > F::cast(1e-10) {
+        let reg_values64 = reg_values.mapv(|x| x.to_f64().unwrap());
+        let params64 = PlattValidParams::<f64, O> {
+            maxiter: params.maxiter,
+            minstep: params.minstep.to_f64().unwrap(),
+            sigma: params.sigma.to_f64().unwrap(),
+            phantom: PhantomData,
+        };
+        return platt_newton_method(reg_values64.view(), labels.view(), &params64)
+            .map(|(a, b)| (F::cast(a), F::cast(b)));
+    }
+
     let (num_pos, num_neg) = labels.iter().fold((0, 0), |mut val, x| {
         match x {
             true => val.0 += 1,
